@@ -10,7 +10,7 @@ import voluptuous as vol
 from homeassistant.components import mqtt
 from homeassistant.core import CALLBACK_TYPE
 
-from ..decorator_abc import DispatchData, TriggerDecorator
+from ..decorator_abc import DecoratorManagerStatus, DispatchData, TriggerDecorator
 from .base import AutoKwargsDecorator, ExpressionDecorator
 
 _LOGGER = logging.getLogger(__name__)
@@ -54,13 +54,18 @@ class MQTTTriggerDecorator(TriggerDecorator, ExpressionDecorator, AutoKwargsDeco
         """Start the MQTT trigger."""
         await super().start()
         topic = self.args[0]
-        self.remove_listener_callback = await mqtt.async_subscribe(
+        remove_listener_callback = await mqtt.async_subscribe(
             self.dm.hass,
             topic,
             self._mqtt_message_handler,
             encoding=self.encoding,
             qos=0,
         )
+        if self.dm.status is not DecoratorManagerStatus.RUNNING:
+            # stopped while the subscription was being made: stop() had nothing to remove yet
+            remove_listener_callback()
+            return
+        self.remove_listener_callback = remove_listener_callback
 
     async def stop(self) -> None:
         """Stop the MQTT trigger."""
